@@ -95,6 +95,7 @@ def _cond_text(cfg, stmt):
 
 def extract(model: Model, func):
     op = Op(func)
+    op.model = model
     fnode = func.node
     op.cfg = CFG(fnode)
     # ---- Tensor(..., children=...) constructions
@@ -117,8 +118,21 @@ def extract(model: Model, func):
     op.out_name = out_stmt.targets[0].id
     op.multi_output = out_stmt.value is not tcall
     if op.multi_output:
-        # accepted idiom: out = tuple(Tensor(o, ...) for o in <kernel result>)
+        # accepted idioms: out = tuple(Tensor(o, ...) for o in <kernel result>)   |   tmp = [Tensor(o, ...) for o in <kernel result>] ; out = tuple(tmp)
         v = out_stmt.value
+        if isinstance(v, (ast.ListComp, ast.GeneratorExp)) and v.elt is tcall:
+            # the comprehension is bound to a temporary that is wrapped by tuple()/list() and bound to the result name
+            tmp = out_stmt.targets[0].id
+            wraps = [n for n in body_walk(fnode) if isinstance(n, ast.Assign) and len(n.targets) == 1 and isinstance(n.targets[0], ast.Name) and isinstance(n.value, ast.Call)
+                     and dotted(n.value.func) in ('tuple', 'list') and len(n.value.args) == 1 and isinstance(n.value.args[0], ast.Name) and n.value.args[0].id == tmp]
+            if len(wraps) == 1:
+                op.out_name = wraps[0].targets[0].id
+            fake = ast.Call(func=ast.Name(id='tuple', ctx=ast.Load()), args=[v], keywords=[])
+            ast.copy_location(fake, v)
+            out_stmt = ast.copy_location(ast.Assign(targets=[ast.Name(id=op.out_name, ctx=ast.Store())], value=fake), out_stmt)
+            ast.fix_missing_locations(out_stmt)
+            op.out_stmt = out_stmt
+            v = fake
         if not (isinstance(v, ast.Call) and dotted(v.func) in ('tuple', 'list') and len(v.args) == 1
                 and isinstance(v.args[0], (ast.GeneratorExp, ast.ListComp)) and v.args[0].elt is tcall):
             raise Incomplete('unrecognised multi-output construction: %s' % norm(out_stmt))
@@ -142,9 +156,10 @@ def extract(model: Model, func):
     nested = {f.name: f for f in model.nested(func)}
     for n in body_walk(fnode):
         if isinstance(n, ast.Call) and _is_backward_function(model, func, n):
-            if not n.args or not isinstance(n.args[0], ast.Name) or n.args[0].id not in nested:
+            first = n.args[0] if n.args else next((k.value for k in n.keywords if k.arg == 'backward'), None)
+            if not isinstance(first, ast.Name) or first.id not in nested:
                 raise Incomplete('BackwardFunction(...) first argument is not a local closure: %s' % norm(n))
-            cl = nested[n.args[0].id]
+            cl = nested[first.id]
             if cl not in op.closures:
                 op.closures.append(cl)
     for n in body_walk(fnode):
@@ -250,7 +265,60 @@ def _children(op, func, expr):
                 for e in val.elts:
                     base.append(Child(e.id, cond=cond))
             return base
+    # any other spelling: evaluate the wrapper (sa/rules_flags.py) and read the children tuple of the result tensor, per presence scenario
+    ev = _children_by_evaluation(op, func)
+    if ev is not None:
+        return ev
     raise Incomplete('unrecognised children expression: %s' % norm(expr))
+
+
+def _children_by_evaluation(op, func):
+    from . import rules_flags as F
+    model = op.model
+    if model is None:
+        return None
+    try:
+        r = F.analyse_op(model, func, model.func(F.TENSOR + '.__init__'))
+    except Incomplete:
+        return None
+    if r is None:
+        return None
+    ops, recs, kuses = r
+    seen, out = {}, []
+    total = 0
+    for rec in recs:
+        if not rec.get('tensors'):
+            continue
+        total += 1
+        for t in rec['tensors'][:1]:
+            if not isinstance(t.children, tuple):
+                return None
+            for c in t.children:
+                nm = getattr(c, 'name', None)
+                if nm is None:
+                    return None
+                base = nm.split('[')[0]
+                seen.setdefault(base, [0, '[' in nm])
+                seen[base][0] += 1
+    if not seen:
+        return None
+    listed = {}
+    for rec in recs:
+        for t in (rec.get('tensors') or [])[:1]:
+            present = {getattr(c, 'name', '').split('[')[0] for c in t.children}
+            for base in seen:
+                listed.setdefault(base, []).append(base in present)
+    order = []
+    for rec in recs:
+        for t in (rec.get('tensors') or [])[:1]:
+            for c in t.children:
+                b = c.name.split('[')[0]
+                if b not in order:
+                    order.append(b)
+    for base in order:
+        always = all(listed[base])
+        out.append(Child(base, cond=None if always else '%s is not None' % base, is_list=seen[base][1]))
+    return out
 
 
 _cache = {}
